@@ -142,6 +142,10 @@ def run(tier):
     rng = random.Random(SEED)
     scen = gen.standard_scenarios(work, rng, bs=4096)
     s = scen[2]            # duplicates: exercises truncate + pread
+    # all-zero tails: the sparse branch of the fragment path (its own inode bookkeeping and allocations)
+    s.add_file("/ztail", b"\0" * 100)
+    s.add_file("/zblock_ztail", b"\0" * (4096 + 50))
+    s.add_file("/data_ztail", bytes(range(256)) * 16 + b"\0" * 70)
     tarb = gen.standard_tars(rng)[0][1]
     img = work + "/ref.sqfs"
     rc, o, e = sh([tools + "/gensquashfs", "-q", "-f", "-c", "gzip", "-b", "4096", "-F", scen[1].packfile(), img], timeout=60)
